@@ -26,9 +26,11 @@ Theorem valid_flags_spec : forall l,
 Proof. exact Proofs.valid_flags_spec. Qed.
 Example valid_flags_giu : valid_flags [ch_g; ch_i; ch_u] = true /\ valid_flags [ch_g; ch_g] = false /\ valid_flags [100%N] = false.
 Proof. repeat split. Qed.
-(* the flag loop of compileRegexp on this tree is NOT that predicate (finding F15) *)
-Theorem goja_flags_refuted : exists l, valid_flags l = false /\ goja_accepts_flags l = true.
-Proof. exact Proofs.goja_flags_refuted. Qed.
+(* the flag loop of compileRegexp (as repaired by a2c2456, F15) accepts exactly the valid flag strings *)
+Theorem goja_flags_eq_valid_flags : forall l, goja_accepts_flags l = valid_flags l.
+Proof. exact Proofs.goja_flags_eq_valid_flags. Qed.
+Example goja_rejects_uu : goja_accepts_flags [ch_u; ch_u] = false /\ goja_accepts_flags [ch_y; ch_u; ch_g] = true.
+Proof. split; reflexivity. Qed.
 
 Section Protocol.
   Variable find : str -> Z -> option mres.
@@ -62,13 +64,167 @@ Section Protocol.
   Proof. exact (Proofs.search_restores_lastIndex find fl s). Qed.
 End Protocol.
 
+
+(* 5. under u, advancing from a code-point boundary lands on a code-point boundary *)
+Theorem advance_boundary : forall s pos, 0 <= pos < slen s -> is_boundary s pos = true ->
+  is_boundary s (advance s pos true) = true.
+Proof. exact Proofs.advance_boundary. Qed.
+Example advance_boundary_ex : is_boundary [55357; 56832; 97]%N 1 = false /\ is_boundary [55357; 56832; 97]%N (advance [55357; 56832; 97]%N 0 true) = true.
+Proof. split; reflexivity. Qed.
+
+(* 6. THE VALIDATOR IS SOUND: what [match_wf = true] means.  Indices are UTF-16 unit positions inside the
+      subject (code-point boundaries under u), the match starts at or after the scan start (under u a
+      start inside a surrogate pair may back up by one), match[0] is that slice of the subject, every
+      defined capture is a piece of the subject located inside the match, the groups object mirrors the
+      numbered captures, and the raw capture ranges (when supplied) agree with all of it. *)
+Theorem match_wf_sound : forall u ncap names s start m,
+  match_wf u ncap names s start m = true ->
+     0 <= start /\ 0 <= ms m /\ ms m <= me m /\ me m <= slen s
+  /\ (start <= ms m \/ (u = true /\ is_boundary s start = false /\ ms m = start - 1))
+  /\ (u = true -> is_boundary s (ms m) = true /\ is_boundary s (me m) = true)
+  /\ length (mcaps m) = S (N.to_nat ncap)
+  /\ nth_cap (mcaps m) 0 = Some (slice s (ms m) (me m))
+  /\ (forall x, In (Some x) (mcaps m) -> located u s x (ms m) (me m))
+  /\ groups_mirror names (mcaps m) (mgroups m)
+  /\ (mrng m <> [] -> Forall2 (rng_fact u s (ms m) (me m)) (mcaps m) (mrng m) /\
+                      nth_error (mrng m) 0 = Some (Some (ms m, me m))).
+Proof. exact Proofs.match_wf_sound. Qed.
+Example match_wf_accepts :
+  match_wf true 1 [(1%N, [110]%N)] [120; 55357; 56832; 121]%N 0
+    (mkM 1 3 [Some [55357; 56832]%N; Some [55357; 56832]%N] (Some [([110]%N, Some [55357; 56832]%N)]) [Some (1, 3); Some (1, 3)]) = true
+  /\ (* an end index inside the surrogate pair is rejected under u *)
+  match_wf true 0 [] [120; 55357; 56832; 121]%N 0 (mkM 1 2 [Some [55357]%N] None []) = false
+  /\ (* ... and accepted without u *)
+  match_wf false 0 [] [120; 55357; 56832; 121]%N 0 (mkM 1 2 [Some [55357]%N] None []) = true.
+Proof. repeat split. Qed.
+
+(* 7. POSITION MAPS.  buildUTF8PosMap bails out exactly when the subject has a lone surrogate; otherwise
+      positionMap.get maps the UTF-8 offset of EVERY code-point boundary to the UTF-16 offset of the
+      same boundary (total on boundaries, correct), rejects every other positive offset, and both
+      offset sequences are strictly increasing; the last boundary is the length of the subject. *)
+Theorem posmap_bailout_iff : forall s, build_utf8_posmap s = None <-> has_lone_surrogate s = true.
+Proof. exact Proofs.bailout_iff. Qed.
+Theorem posmap_correct : forall s pm bytes k,
+  build_utf8_posmap s = Some (pm, bytes) -> (k <= length (decode_lenient s))%nat ->
+  pm_get pm (utf8_off (decode_lenient s) k) = Some (utf16_off (decode_lenient s) k).
+Proof. exact Proofs.posmap_correct. Qed.
+Theorem posmap_only_boundaries : forall s pm bytes b,
+  build_utf8_posmap s = Some (pm, bytes) -> 0 < b ->
+  (forall k, (k <= length (decode_lenient s))%nat -> utf8_off (decode_lenient s) k <> b) ->
+  pm_get pm b = None.
+Proof. exact Proofs.posmap_only_boundaries. Qed.
+Theorem posmap_monotone : forall s j k, (j < k <= length (decode_lenient s))%nat ->
+  utf16_off (decode_lenient s) j < utf16_off (decode_lenient s) k /\
+  utf8_off (decode_lenient s) j < utf8_off (decode_lenient s) k.
+Proof. exact Proofs.posmap_monotone. Qed.
+Theorem utf16_off_total : forall s, utf16_off (decode_lenient s) (length (decode_lenient s)) = slen s.
+Proof. exact Proofs.utf16_off_total. Qed.
+(* buildPosMap (rune index -> UTF-16 offset, used with regexp2 and single RE2 matches under u) *)
+Theorem posmap16_correct : forall s k, (k <= length (decode_lenient s))%nat ->
+  nth_error (build_posmap16 s) k = Some (utf16_off (decode_lenient s) k).
+Proof. exact Proofs.posmap16_correct. Qed.
+Example posmap_ex :   (* "a" U+1F600 "é": UTF-8 offsets 1,5,7 -> UTF-16 offsets 1,3,4; byte 3 is inside the emoji *)
+  let s := [97; 55357; 56832; 233]%N in
+  match build_utf8_posmap s with
+  | Some (pm, bytes) => map (pm_get pm) [0; 1; 5; 7; 3] = [Some 0; Some 1; Some 3; Some 4; None] /\ length bytes = 7%nat
+  | None => False
+  end /\ build_utf8_posmap [97; 55357; 233]%N = None /\ build_posmap16 s = [0; 1; 3; 4].
+Proof. repeat split. Qed.
+
+Section Global.
+  Variable find : str -> Z -> option mres.
+  Variable fl : flags.
+  Variable rep : mres -> str.
+  Variable s : str.
+  Variable ncap : N.
+  Variable names : list (N * str).
+  Hypothesis Hg : fg fl = true.
+  Hypothesis Hy : fy fl = false.
+  (* EVERY abstract engine whose results pass the validator *)
+  Hypothesis Hwf : forall p m, 0 <= p <= slen s -> find s p = Some m -> match_wf (fu fl) ncap names s p m = true.
+
+  Let Hfind := Proofs.wf_engine_ok find fl ncap names s Hwf.
+
+  (* 8. the exec loop of @@match / @@replace under g terminates: empty matches advance, so any fuel beyond
+        |s|+2 gives the same result and the loop ends by itself; lastIndex ends at 0 *)
+  Theorem global_loop_terminates : forall n, (loop_fuel s <= n)%nat ->
+    g_loop find fl s n 0 = g_loop find fl s (loop_fuel s) 0 /\ snd (g_loop find fl s n 0) = true.
+  Proof. exact (Proofs.global_loop_terminates find fl s Hg Hy Hfind). Qed.
+  Theorem global_matches_lastIndex_zero : snd (g_matches find fl s) = 0.
+  Proof. rewrite (Proofs.g_matches_rx2 find fl s Hg Hy Hfind). reflexivity. Qed.
+
+  (* 9. PATH INDEPENDENCE for match and replace with g (regexp2's find-all iteration, which is what the
+        optimised path uses whenever it does not go through Go's FindAll): results AND lastIndex *)
+  Theorem protocol_paths_agree_match_g : forall li, match_fast find fl s RX2 li = match_generic find fl s li.
+  Proof. exact (Proofs.match_g_paths_agree find fl s Hg Hy Hfind). Qed.
+  Theorem protocol_paths_agree_replace_g : forall li,
+    replace_fast find fl rep s RX2 li = replace_generic find fl rep s li.
+  Proof. exact (Proofs.replace_g_paths_agree find fl rep s Hg Hy Hfind). Qed.
+End Global.
+
+Section SplitPaths.
+  Variable find : str -> Z -> option mres.
+  Variable fl : flags.
+  Variable s : str.
+  Variable ncap : N.
+  Variable names : list (N * str).
+  (* the route on which the optimised splitter runs over Go's FindAll without u: an ASCII subject *)
+  Hypothesis Hu : fu fl = false.
+  Hypothesis Hasc : is_ascii s = true.
+  Hypothesis Hwf : forall p m, 0 <= p <= slen s -> find s p = Some m -> match_wf (fu fl) ncap names s p m = true.
+  (* the engine is a leftmost scan: starting later, but not after the match it found, finds the same
+     match; a scan that failed stays failed *)
+  Hypothesis Hsame : forall p m q, 0 <= p <= slen s -> find s p = Some m -> p <= q <= ms m -> find s q = Some m.
+  Hypothesis Hnone : forall p q, 0 <= p <= slen s -> find s p = None -> p <= q <= slen s -> find s q = None.
+
+  (* 9c. PATH INDEPENDENCE for split: stdSplitter over the list of Go's FindAll (which drops an empty
+         match adjacent to the previous match) equals the generic @@split protocol loop, for every limit *)
+  Theorem protocol_paths_agree_split : forall lim, split_fast find fl s RE2 lim = split_generic find fl s lim.
+  Proof. exact (Proofs.split_paths_agree_wf find fl s ncap names Hu Hasc Hwf Hsame Hnone). Qed.
+End SplitPaths.
+
+(* 10. non-vacuity of 8 and 9 (a concrete engine that passes the validator: a* on "baac"), and the three
+       places where the optimised path of this tree is refuted to equal the generic path (findings F201-F203) *)
+Example global_nonvacuous :
+  (forall p m, 0 <= p <= slen s_baac -> find_astar s_baac p = Some m -> match_wf (fu fl_g) 0 [] s_baac p m = true) /\
+  match_generic find_astar fl_g s_baac 0 = (RL [Some []; Some [97; 97]%N; Some []; Some []], 0).
+Proof. split; [exact Proofs.find_astar_wf|exact (proj2 (proj2 Proofs.baac_agreements))]. Qed.
+Example split_nonvacuous :
+  is_ascii s_baac = true /\
+  (forall p m q, 0 <= p <= slen s_baac -> find_astar s_baac p = Some m -> p <= q <= ms m -> find_astar s_baac q = Some m) /\
+  split_generic find_astar fl_none s_baac None = RL [Some [98]%N; Some [99]%N].
+Proof. split; [reflexivity|]. split; [exact (proj1 Proofs.find_astar_scan)|reflexivity]. Qed.
+Theorem match_g_re2_refuted : match_fast find_astar fl_g s_baac RE2 0 <> match_generic find_astar fl_g s_baac 0.
+Proof. exact Proofs.match_g_re2_refuted. Qed.
+Theorem match_gy_refuted : match_fast find_astar fl_gy s_baac RX2 0 <> match_generic find_astar fl_gy s_baac 0.
+Proof. exact Proofs.match_gy_refuted. Qed.
+Theorem split_rx2_refuted :
+  split_fast find_astar fl_none s_baac RX2 None <> split_generic find_astar fl_none s_baac None.
+Proof. exact Proofs.split_rx2_refuted. Qed.
+
 Print Assumptions advance_string_index_spec.
 Print Assumptions advance_skips_pair.
 Print Assumptions valid_flags_spec.
-Print Assumptions goja_flags_refuted.
+Print Assumptions goja_flags_eq_valid_flags.
 Print Assumptions lastIndex_in_bounds.
 Print Assumptions exec_fail_resets.
 Print Assumptions exec_beyond_length.
 Print Assumptions exec_sticky_at.
 Print Assumptions search_paths_agree.
 Print Assumptions search_restores_lastIndex.
+Print Assumptions advance_boundary.
+Print Assumptions match_wf_sound.
+Print Assumptions posmap_bailout_iff.
+Print Assumptions posmap_correct.
+Print Assumptions posmap_only_boundaries.
+Print Assumptions posmap_monotone.
+Print Assumptions utf16_off_total.
+Print Assumptions posmap16_correct.
+Print Assumptions global_loop_terminates.
+Print Assumptions global_matches_lastIndex_zero.
+Print Assumptions protocol_paths_agree_match_g.
+Print Assumptions protocol_paths_agree_replace_g.
+Print Assumptions match_g_re2_refuted.
+Print Assumptions match_gy_refuted.
+Print Assumptions split_rx2_refuted.
+Print Assumptions protocol_paths_agree_split.
